@@ -647,6 +647,8 @@ main(void)
 		if (strcmp(hc_tok[0], "case") == 0) {
 			case_reset();
 			printf("case %s", hc_ntok > 1 ? hc_tok[1] : "");
+		} else if (strcmp(hc_tok[0], "tag") == 0) {
+			printf("ok");
 		} else if (hc_is("srv", 1)) {
 			b = hc_unhex(hc_tok[1], &n);
 			srv_append(b, n, 1);
